@@ -1,8 +1,8 @@
 (* C10 - Line count, per-line callbacks and line selection agree and round-trip. *)
 From Coq Require Import List Bool ZArith Lia.
 Import ListNotations.
-From Rosed Require Import Base.Res Base.ListX Base.Str Gem.Segment Model.Options Model.Editor Model.Ops Check.Select
-     Proofs.StrP Proofs.C10P.
+From Rosed Require Import Base.Res Base.ListX Base.Str Gem.Segment Model.Util Model.Options Model.Editor Model.Ops Check.Select
+     Proofs.StrP Proofs.C10P Proofs.C10Q.
 Open Scope Z_scope.
 
 (* strings.Join after strings.Split is the identity for every non-empty separator *)
@@ -30,3 +30,32 @@ Theorem C10_apply_identity : forall (C : Classifier) opts e,
   apply_opts (fun _ l => Ok [l]) opts e = Ok e.
 Proof. intros C opts e. exact (apply_id opts e). Qed.
 Print Assumptions C10_apply_identity.
+
+(* Lines(start, end): with P the pieces strings.Split gives and (a, b) the normalised range,
+   the selection is the byte range from the start of piece a to the start of piece b, or to
+   the end of the text when b is past the last piece; nothing is selected past the line count *)
+Theorem C10_lines_selection : forall (C : Classifier) e s0 e0,
+  let text := e_text e in
+  let sep := o_linesep (with_defaults (e_opts e)) in
+  let P := split text sep in
+  let lc := line_count e in
+  let s1 := if s0 =? go_End then lc else s0 in
+  let e1 := if e0 =? go_End then lc else e0 in
+  text <> [] -> sep <> [] ->
+  ed_lines_sel e s0 e0 =
+    let '(a, b) := range_to_indexes lc s1 e1 in
+    if lc <=? a then sub_ed e (zlen text) (zlen text)
+    else sub_ed e (off sep P (Z.to_nat a)) (if (Z.to_nat b <? length P)%nat then off sep P (Z.to_nat b) else zlen text).
+Proof. intros C. exact lines_sel_spec. Qed.
+Print Assumptions C10_lines_selection.
+
+(* and those byte ranges hold exactly the lines a..b-1, each with its terminator *)
+Theorem C10_lines_range_text : forall sep text a b, sep <> [] -> (a <= b)%nat -> (b < length (split text sep))%nat ->
+  zslice text (off sep (split text sep) a) (off sep (split text sep) b) = concat (map (fun p => p ++ sep) (slice (split text sep) a b)).
+Proof. exact lines_range_text. Qed.
+Print Assumptions C10_lines_range_text.
+
+Theorem C10_lines_tail_text : forall sep text a, sep <> [] -> (a < length (split text sep))%nat ->
+  zslice text (off sep (split text sep) a) (zlen text) = join sep (skipn a (split text sep)).
+Proof. exact lines_tail_text. Qed.
+Print Assumptions C10_lines_tail_text.
